@@ -35,10 +35,29 @@ TRaise  == IsEvent("raise") /\ Raise /\ UNCHANGED exc
 TReject == IsEvent("reject") /\ phase = "idle"
            /\ ~ValidMapRequestF(d, inp, FSet(Ev.F)) /\ UNCHANGED mvars /\ UNCHANGED exc
 
+(* C04: what load_outputs / RunInfo.load return afterwards, in the same or in a fresh process, any number of times:  *)
+(* outputs = denotation, inputs and defaults = what was given, shapes / masks / MapSpec strings / storage choices = the  *)
+(* ones of the run                                                                                                     *)
+InfoShape(i) == IF HasMapInputs(d.funcs[i]) THEN OutShape(d, den, i) ELSE d.funcs[i].internal
+InfoMask(i)  == IF HasMapInputs(d.funcs[i]) THEN ExtMask(d.funcs[i]) ELSE [k \in DOMAIN d.funcs[i].internal |-> FALSE]
+TLoad == IsEvent("load") /\ phase = "idle" /\ UNCHANGED mvars /\ UNCHANGED exc
+         /\ Ev.cls = ""                                                           \* loading did not raise
+         /\ (\A k1 \in DOMAIN Ev.loaded : Ev.loaded[k1][2] = den[Ev.loaded[k1][1]])
+         /\ ({Ev.loaded[k2][1] : k2 \in DOMAIN Ev.loaded} = UNION {OutputsOf(d, i) : i \in cfg.F})
+         /\ (\A k3 \in DOMAIN Ev.linputs : PHas(inp, Ev.linputs[k3][1]) /\ Ev.linputs[k3][2] = PGet(inp, Ev.linputs[k3][1]))
+         /\ ({Ev.linputs[k4][1] : k4 \in DOMAIN Ev.linputs} = PKeys(inp))
+         /\ (\A k5 \in DOMAIN Ev.ldefaults : HasDefault(d, Ev.ldefaults[k5][1]) /\ Ev.ldefaults[k5][2] = DefaultOf(d, Ev.ldefaults[k5][1]))
+         /\ (\A k6 \in DOMAIN Ev.shapes : LET i == FuncOf(d, Ev.shapes[k6][1]) IN
+                IF i = 0 THEN PHas(inp, Ev.shapes[k6][1])                  \* shapes of mapped root inputs are recorded too
+                ELSE Ev.shapes[k6][2] = InfoShape(i) /\ Ev.shapes[k6][3] = InfoMask(i))
+         /\ ({Ev.shapes[k7][1] : k7 \in DOMAIN Ev.shapes} \cap AllOutputs(d)
+               = UNION {OutputsOf(d, i) : i \in {j \in cfg.F : d.funcs[j].has_ms}})
+         /\ Ev.storage_out = Ev.storage_in /\ Ev.mapspecs_out = Ev.mapspecs_in
+
 (* the run was interrupted (process death / exception); Ev.disk = what is completely stored afterwards *)
 TInterrupt == IsEvent("interrupt") /\ Interrupt({<<Ev.disk[k][1], Ev.disk[k][2]>> : k \in DOMAIN Ev.disk}) /\ exc' = NoExc
 
-Next == TInterrupt \/ TBegin \/ TCall \/ TRet \/ TFail \/ TReturn \/ TRaise \/ TReject
+Next == TLoad \/ TInterrupt \/ TBegin \/ TCall \/ TRet \/ TFail \/ TReturn \/ TRaise \/ TReject
 Spec == Init /\ [][Next]_<<mvars, tid, l, exc>>
 
 Track == IF l > TLCGet(tid) THEN TLCSet(tid, l) ELSE TRUE
